@@ -41,6 +41,7 @@ def compile_progs(th, sources):
             raise Broken("corpus program %s does not compile: %s" % (n, r and r["errors"]))
         r["prog"].setdefault("arity", [])       # parameter counts by definition order when known (TheoVMAbs)
         r["prog"].setdefault("toklines", [])    # (file, line) pairs carrying program text when known (C08)
+        r["prog"].setdefault("avail", [[e["file"], e["line"]] for e in r["prog"]["pbs"]])
         progs.append(r["prog"])
     return progs
 
@@ -55,10 +56,11 @@ def compile_progs_lenient(th, sources):
         if r is not None and r["ok"]:
             r["prog"].setdefault("arity", [])
             r["prog"].setdefault("toklines", [])
+            r["prog"].setdefault("avail", [[e["file"], e["line"]] for e in r["prog"]["pbs"]])
             progs.append(r["prog"])
         else:
             progs.append({"code": [{"op": "PREP", "a": 0, "b": 0, "c": 0}, {"op": "HALT", "a": 0, "b": 0, "c": 0}],
-                          "maps": [{"name": "#root", "regs": []}], "pbs": [], "sites": [], "arity": [], "toklines": []})
+                          "maps": [{"name": "#root", "regs": []}], "pbs": [], "sites": [], "arity": [], "toklines": [], "avail": []})
     return progs
 
 
